@@ -135,5 +135,6 @@ def run(ck, facts, tier):
     prims.rule_array_index(ck, facts, "C01.prims")
     prims.rule_null_array(ck, facts, "C01.prims")
     prims.rule_site_table(ck, facts, "C05.site-table")
+    prims.rule_scheduler_heap(ck, facts, "C01.prims")
     ck.not_decided("equality of outputs for a given program; register allocation, control-flow lowering and memory models are not compared")
     ck.not_decided("anything about wasmtime's execution of the emitted module")
